@@ -49,6 +49,8 @@ def glyph_name(codepoints):
         hash = hashlib.sha1()  # don't care if secure
         hash.update(name.encode("utf-8"))
         name = base64.b32encode(hash.digest()).decode("utf-8")
-    if not name[0].isalpha():
+    # also prefix names that naturally start with "g_" (sequences beginning with the
+    # letter g) so they can't collide with a prefixed name, e.g. U+1F600 => g_1f600
+    if not name[0].isalpha() or name.startswith("g_"):
         name = "g_" + name
     return name
